@@ -508,3 +508,27 @@ mod tests {
         );
     }
 }
+
+#[cfg(feature = "verif-hooks")]
+impl Array4 {
+    /// Verification hook: (raw nibbles, cur_min, num_at_cur_min, aux entries, hip, kxq0, kxq1, ooo).
+    #[allow(clippy::type_complexity)]
+    pub(super) fn verif_parts(&self) -> (Vec<u8>, u8, u32, Vec<(u32, u8)>, f64, f64, f64, bool) {
+        let k = 1u32 << self.lg_config_k;
+        let raw = (0..k).map(|s| self.get_raw(s)).collect();
+        let aux = match &self.aux_map {
+            Some(aux) => aux.iter().collect(),
+            None => vec![],
+        };
+        (
+            raw,
+            self.cur_min,
+            self.num_at_cur_min,
+            aux,
+            self.estimator.hip_accum(),
+            self.estimator.kxq0(),
+            self.estimator.kxq1(),
+            self.estimator.is_out_of_order(),
+        )
+    }
+}
